@@ -91,7 +91,30 @@ func TestCheck(t *testing.T) {
 			run.Fatal(caseID + ": intended: " + err.Error())
 			return
 		}
-		if err := build(target, tgtOps); err != nil {
+		if mode == "independent" && i%4 == 2 {
+			// a target that was programmed out of dependency order: groups arrive before
+			// their next-hops and entries before their groups, are held, and are installed
+			// when what they wait for arrives - nothing is held any more when the
+			// reconciliation starts, and the contents are those of the in-order build
+			sh := append([]gen.OpSpec{}, tgtOps...)
+			r.Shuffle(len(sh), func(a, b int) { sh[a], sh[b] = sh[b], sh[a] })
+			for _, o := range sh {
+				if _, fails, err := mon.Apply(target, o); err != nil || len(fails) > 0 {
+					run.Fatal(fmt.Sprintf("%s: target (shuffled build): %s => fails=%v err=%v", caseID, o, fails, err))
+					return
+				}
+			}
+			twin := newRIB(g.S.Default, tgtNIs)
+			if err := build(twin, tgtOps); err != nil {
+				run.Fatal(caseID + ": target twin: " + err.Error())
+				return
+			}
+			if p := target.VerifPendingOps(); len(p) > 0 || contents(target).String() != contents(twin).String() {
+				run.Fatal(fmt.Sprintf("%s: target built out of order differs from the in-order build (%d held)", caseID, len(p)))
+				return
+			}
+			run.Count("targets_programmed_out_of_dependency_order", 1)
+		} else if err := build(target, tgtOps); err != nil {
 			run.Fatal(caseID + ": target: " + err.Error())
 			return
 		}
